@@ -271,7 +271,8 @@ class Check:
                 broken = "determinism gate failed for %s case %s: %s" % (prop.ID, case.get("index"), why)
                 break
             kf = self.kf.match(prop.ID, v0)
-            small, mruns = self.minimise(case, v0.cls, budget_runs=120 if kf else 400, budget_s=30 if kf else 120)
+            slow_cls = v0.cls in ("hang", "budget")   # every re-run of such a case is slow: shrink only a little
+            small, mruns = self.minimise(case, v0.cls, budget_runs=12 if slow_cls else (120 if kf else 400), budget_s=30 if kf else (60 if slow_cls else 120))
             oc2 = self.execute_single(small)
             vv = [v for v in oc2.verdicts if v.cls == v0.cls]
             if not vv:
